@@ -22,7 +22,7 @@ ANCHORS = ["npdataclasses.py::NpDataClass._assert_same_lens", "npdataclasses.py:
            "npdataclasses.py::NpDataClass.astype", "npdataclasses.py::VarLenArray.__array_function__", "npdataclasses.py::NpDataClass.__len__"]
 OPS = ["len", "badlen", "idx", "iter", "concat", "eq", "astype", "vla", "inherit"]
 FLOOR_TAGS = ["op:" + o for o in OPS] + ["idx:int", "idx:slice", "idx:list", "idx:mask", "idx:boollist", "idx:emptylist", "len:0", "fields:1", "fields:4",
-                                         "astype:reordered", "astype:same-order", "eq:same", "eq:cell-differs", "eq:length-differs", "eq:shape-differs", "field:2d", "field:float", "badlen:first", "badlen:other", "vla:fortran", "inherit:badlen", "inherit:eq", "inherit:idx"]
+                                         "astype:reordered", "astype:same-order", "eq:same", "eq:cell-differs", "eq:length-differs", "eq:shape-differs", "eq:length-differs-same-size", "field:2d", "field:float", "badlen:first", "badlen:other", "vla:fortran", "inherit:badlen", "inherit:eq", "inherit:idx"]
 FLOOR_MONITORS = ["c18:compare", "c18:aligned"]
 FP_STRICT = True       # a floating-point event inside the library that the dense computation does not have is a violation (shard.FpMonitor)
 N_RANDOM = {"quick": 32000, "thorough": 200000}
@@ -251,12 +251,25 @@ def run(case):
             fs2[i].reshape(-1)[case["cell"] % fs2[i].size] += 1
         elif mode == "length-differs":
             fs2 = [field(kd, i, L + 1) for i, kd in enumerate(kinds)]
+        elif mode == "length-differs-same-size":
+            # one table has L scalar entries, the other ONE entry that is the vector of those L numbers: same element count, other length
+            i = case["which"] % k
+            col = np.arange(L, dtype=np.int64) * 10 + 7
+            fs1 = [f[:1].copy() for f in fs]
+            fs1[i] = col[None, :]
+            fs2 = [f.copy() for f in fs]
+            fs2[i] = col
+            if k > 1:
+                return undefined("needs a single-field table", tags)
+            o = C(*fs1)
         elif mode == "shape-differs":
             # same number of entries, but one column has another entry shape that numpy would broadcast:
             # entry i is a different object in the two tables although the cells repeat the same numbers
             i = case["which"] % k
             col = np.arange(L, dtype=np.int64) * 10 + 7
-            if case["variant"] == "1d-vs-2d":
+            if case["variant"] == "nx1-vs-n":
+                mine, theirs = col[:, None], col.copy()                     # (L, 1) against (L,): the same numbers, entries of another shape
+            elif case["variant"] == "1d-vs-2d":
                 mine, theirs = col, np.tile(col, (L, 1))                    # (L,) against (L, L) whose rows repeat it
             else:
                 mine, theirs = col[:, None], np.repeat(col[:, None], case["width"], axis=1)   # (L, 1) against (L, w) with constant rows
@@ -334,10 +347,10 @@ def gen_case(rng, tier, op=None, k=None, L=None):
     elif op == "concat":
         c["others"] = [rng.randint(0, 4) for _ in range(rng.randint(0, 3))]
     elif op == "eq":
-        c["mode"] = rng.choice(["same", "cell-differs", "length-differs", "shape-differs"]) if L > 0 else rng.choice(["same", "length-differs"])
+        c["mode"] = rng.choice(["same", "cell-differs", "length-differs", "shape-differs", "length-differs-same-size" if k == 1 and L > 1 else "shape-differs"]) if L > 0 else rng.choice(["same", "length-differs"])
         c.update(which=rng.randrange(k), cell=rng.randrange(100))
         if c["mode"] == "shape-differs":
-            c.update(variant=rng.choice(["1d-vs-2d", "narrow-vs-wide"]), width=rng.randint(2, 4), swap=rng.random() < 0.5)
+            c.update(variant=rng.choice(["1d-vs-2d", "narrow-vs-wide", "nx1-vs-n"]), width=rng.randint(2, 4), swap=rng.random() < 0.5)
             if c["variant"] == "1d-vs-2d" and L == 1:
                 c["variant"] = "narrow-vs-wide"
     elif op == "astype":
